@@ -37,10 +37,13 @@ type prefixWriter struct {
 	writer   io.Writer
 	prefixed *Prefixed
 	prefix   string
+	mutex    sync.Mutex // one command may write from several goroutines (a pipeline, stdout and stderr)
 	buff     bytes.Buffer
 }
 
 func (pw *prefixWriter) Write(p []byte) (int, error) {
+	pw.mutex.Lock()
+	defer pw.mutex.Unlock()
 	n, err := pw.buff.Write(p)
 	if err != nil {
 		return n, err
@@ -50,6 +53,8 @@ func (pw *prefixWriter) Write(p []byte) (int, error) {
 }
 
 func (pw *prefixWriter) close() error {
+	pw.mutex.Lock()
+	defer pw.mutex.Unlock()
 	return pw.writeOutputLines(true)
 }
 
